@@ -118,7 +118,7 @@ func c29Run(c c29Case) *eng.Fail {
 
 func init() {
 	checks["C29"] = eng.Check{
-		Rule: "format(text, indent, width) for EVERY string over {a, b, space} of length <=10 (thorough 12) without leading space x remaining width 1..5 x indentation 0..2 (+ widths 6..9 on the strings of length <=8): termination (watchdog), every line = indentation tabs + at most width characters, the non-space characters equal the text's in order, a word is split only if longer than the width. Non-trivial = text that needs more than one line.",
+		Rule:        "format(text, indent, width) for EVERY string over {a, b, space} of length <=10 (thorough 12) without leading space x remaining width 1..5 x indentation 0..2 (+ widths 6..9 on the strings of length <=8): termination (watchdog), every line = indentation tabs + at most width characters, the non-space characters equal the text's in order, a word is split only if longer than the width. Non-trivial = text that needs more than one line.",
 		Assumptions: []string{"single-line text without leading spaces and at least one character of room (the property's domain)"},
 		Run: func(r *eng.Run) {
 			maxLen := 10
